@@ -476,10 +476,25 @@ def main(argv=None):
                           a.scale))
     results = []
     if tasks:
+        # parent-side watchdog: a worker stuck inside compiled code cannot be
+        # interrupted from within; after the deadline the pool is terminated
+        # and the unfinished shards are reported as inconclusive (exit 2)
+        limit = max(r.budget_s.get(a.tier, 600) for r in rels) * 2 + 120
         ctxmp = multiprocessing.get_context('fork')
-        with ctxmp.Pool(min(a.jobs, len(tasks)), maxtasksperchild=1) as pool:
-            for res in pool.imap_unordered(run_task, tasks, chunksize=1):
-                results.append(res)
+        pool = ctxmp.Pool(min(a.jobs, len(tasks)), maxtasksperchild=1)
+        try:
+            pending = [(t, pool.apply_async(run_task, (t,))) for t in tasks]
+            t_end = time.monotonic() + limit
+            for t, ar in pending:
+                try:
+                    results.append(ar.get(max(0.1, t_end - time.monotonic())))
+                except multiprocessing.TimeoutError:
+                    harness_errors.append(
+                        f'{t[1]} shard {t[4]}: no result within {limit}s '
+                        '(worker hung or far over budget) - inconclusive')
+        finally:
+            pool.terminate()
+            pool.join()
     results.sort(key=lambda r: (r['relation'], r['shard']))
 
     by_rel = collections.OrderedDict()
